@@ -7,7 +7,7 @@ from fractions import Fraction
 from .. import dag, qk
 from ..arr import Arr
 from ..core import pmap
-from ..pe import PE, Obj, Env
+from ..pe import PE, Obj, Env, named_arguments
 from ..series import valuation_at_least
 from ..src import load, stmt_text
 
@@ -183,7 +183,7 @@ def run(chk):
     for scheme in ("EXPONENTIATED", "EXPANDED", None):
         rec = []
         pe3 = PE(src)
-        pe3.overrides["eko.couplings.Couplings"] = lambda p_, a, k, rec=rec: rec.append(dict(k)) or "SC"
+        pe3.overrides["eko.couplings.Couplings"] = lambda p_, a, k, rec=rec: rec.append(named_arguments(k)) or "SC"
         pe3.overrides["eko.io.runcards.masses"] = lambda p_, a, k: "MASSES"
         th, op = Opaque(), Opaque()
         th.heavy = Opaque()
